@@ -95,6 +95,9 @@ pub fn singleton() -> Abs {
 /// Small component drawn from a menu of shapes that matter: odd cycles (no stable extension),
 /// even cycles, self-attackers, isolated arguments, random graphs.
 pub fn small_component(rng: &mut Rng, max_n: usize) -> Abs {
+    if max_n >= 5 && rng.pct(12) {
+        return layered_component(rng, max_n);
+    }
     match rng.below(10) {
         0 => ring(3.min(max_n.max(1))),
         1 => ring(if max_n >= 5 { 5 } else { 3.min(max_n.max(1)) }),
@@ -112,6 +115,90 @@ pub fn small_component(rng: &mut Rng, max_n: usize) -> Abs {
             g
         }
     }
+}
+
+/// A component with a non-trivial *grounded front*: k unattacked sources, a layer of arguments each
+/// attacked by several sources at once (fan-in: the grounded extension attacks the same argument
+/// more than once), and behind that layer a small core that the grounded extension leaves free
+/// (2-cycle, odd or even ring, self-attacker, chain).  Counting attacks instead of attacked
+/// arguments, or treating "grounded attacks everything" loosely, only shows on this shape.
+pub fn layered_component(rng: &mut Rng, max_n: usize) -> Abs {
+    let max_n = max_n.max(5);
+    let k = rng.range(1, 3.min(max_n - 3));
+    let m = rng.range(1, 2.min(max_n - k - 2));
+    let room = max_n - k - m;
+    let core = match rng.below(6) {
+        0 => two_cycle(),
+        1 => ring(3.min(room.max(1))),
+        2 => self_attacker(),
+        3 => ring(4.min(room.max(2))),
+        4 => chain(rng.range(1, 3.min(room.max(1)))),
+        _ => {
+            let n = rng.range(2, room.clamp(2, 4));
+            let mut g = er(rng, n, 40, 10);
+            connect(&mut g, rng);
+            g
+        }
+    };
+    let n = k + m + core.n;
+    let mut att: Vec<(usize, usize)> = Vec::new();
+    for t in 0..m {
+        // every layer argument is attacked by at least one source, usually by several
+        let mut any = false;
+        for s in 0..k {
+            if rng.pct(75) {
+                att.push((s, k + t));
+                any = true;
+            }
+        }
+        if !any {
+            att.push((rng.below(k), k + t));
+        }
+        // ... and attacks into the core (sometimes a source does too)
+        att.push((k + t, k + m + rng.below(core.n)));
+        if rng.pct(30) {
+            att.push((k + t, k + m + rng.below(core.n)));
+        }
+    }
+    if rng.pct(15) {
+        att.push((rng.below(k), k + m + rng.below(core.n)));
+    }
+    if rng.pct(20) && m == 2 {
+        att.push((k, k + 1));
+    }
+    for (a, b) in core.att.iter() {
+        att.push((k + m + a, k + m + b));
+    }
+    att.sort();
+    att.dedup();
+    let g = Abs::new(n, att);
+    shuffle_labels(&g, rng)
+}
+
+/// Unions of one to three layered components and sometimes a small one.
+pub fn layered_family(rng: &mut Rng, max_total: usize) -> Abs {
+    let k = rng.range(1, 3);
+    let mut parts = Vec::new();
+    let mut total = 0;
+    for _ in 0..k {
+        let room = max_total.saturating_sub(total);
+        if room < 5 {
+            break;
+        }
+        let c = layered_component(rng, room.min(7));
+        total += c.n;
+        parts.push(c);
+    }
+    if rng.pct(50) && max_total.saturating_sub(total) >= 2 {
+        let c = small_component(rng, (max_total - total).min(4));
+        if c.n <= max_total - total {
+            parts.push(c);
+        }
+    }
+    if parts.is_empty() {
+        parts.push(layered_component(rng, 5));
+    }
+    union_of(&parts, rng)
 }
 
 /// Adds attacks until the graph is weakly connected.
